@@ -1,6 +1,7 @@
 (* C18: the data layer of model/RedVar.v (lag stacking and complete-column mask), for any value type. *)
+From Coq Require Import String.
 From Coq Require Import List Arith Lia Bool Sorted.
-From Verif Require Import model.RedVar.
+From Verif Require Import gen.RedVarGen model.RedVar.
 Import ListNotations.
 
 Section DataProofs.
@@ -211,3 +212,16 @@ Lemma mask_all_when_not_omitting (p k : nat) ys xs :
   let d := estimation_data p k false ys xs in ed_where d = repeat true (ed_N d).
 Proof. reflexivity. Qed.
 End DataProofs.
+
+(* the scalar fragments regenerated from the source are the formulas the model and the theorems assume *)
+Lemma generated_formulas (n p m : nat) (ic dof : bool) :
+  gen_dimension_fields = ["num_endogenous"; "order"; "has_intercept"; "num_exogenous"]%string /\
+  gen_num_nonendogenous n p ic m = m + Nat.b2n ic /\
+  gen_num_lagged_endogenous n p ic m = n * p /\
+  gen_num_rhs n p ic m = n * p + (m + Nat.b2n ic) /\
+  gen_split_a_end n p ic m = n * p /\
+  gen_dof_subtrahend n p ic m dof = (if dof then m + Nat.b2n ic else 0) /\
+  gen_minnesota_num_obs n p ic m = n * p /\
+  gen_mean_num_obs n p ic m = Nat.b2n ic /\
+  gen_default_residual_is_zero = true.
+Proof. repeat split; reflexivity. Qed.
